@@ -7,7 +7,7 @@ here = os.path.dirname(os.path.dirname(os.path.abspath(__file__)))
 CHECKS = {
     "C20": (
         "Hypothesis-generated process configurations executed with forked workers under a harness-forced overlap (barriers around start and temp-file creation); differential against solitary imports",
-        "2-40 importer processes (GFF3/GTF inputs, same or different, offsets 0-20 ms, one shared TMPDIR) are released together and held at the "
+        "2-40 importer processes (GFF3/GTF inputs incl. GTF without exon lines, same or different, offsets 0-20 ms, one shared TMPDIR, outputs with distinct or identical basenames) are released together and held at the "
         "creation of their intermediate file until all have one; every output snapshot must equal the solitary import of its input, the shared "
         "temp dir must be empty afterwards, and 2-32 concurrent readers of a finished file must all see its full content. Overlapping pairs and "
         "barrier meetings are measured and reported; the clock is never an oracle.",
@@ -16,10 +16,10 @@ CHECKS = {
     ),
     "C10": (
         "Hypothesis RuleBasedStateMachine (model-based stateful testing) + exhaustive enumeration of short operation sequences; full-snapshot invariant after every step",
-        "Histories over update (five strategies; list / generator / text-path input), delete (ids, Features, missing), add_relation, reopen, empty "
+        "Histories on a GFF3 or a GTF-importer database over update (five strategies; list / generator / text-path input; checklines), delete (ids, Features, missing, relation-only ids), add_relation (optionally with child_func), reopen, empty "
         "update and a faulty update whose source raises after k items are applied to a real file database and to a reference model (MergeModel + set "
         "arithmetic for relations incl. the level-2 closure); after every step the features, relations, directives, dialect and id counters must "
-        "equal the model, auto ids never recur, and with make_backup the .bak file must be the complete pre-operation database - also when the "
+        "equal the model (also through look-ups, counts and distinct values on the long-lived handle), auto ids never recur, and with make_backup the .bak file must be the complete pre-operation database - also when the "
         "operation then fails. All sequences up to depth 3 (quick) / 4 (thorough) over a fixed 8-operation alphabet are enumerated as well.",
         "Faults are exceptions raised by the feature source (no process/disk crash); after a raising update only the .bak promise is checked; "
         "replace updates that change Parent are excluded (known finding D11).",
@@ -27,9 +27,9 @@ CHECKS = {
     ),
     "C19": (
         "Hypothesis-generated (old db, new input, force) triples and read-call sequences; differential snapshot oracle + SQL statement tracing from outside",
-        "create_db onto an existing file must raise without force and leave the snapshot unchanged, and with force must equal an import into a fresh "
+        "create_db onto an existing file (also one emptied by delete(), also with a feature-less new input) must raise without force and leave the file and its snapshot unchanged, and with force must equal an import into a fresh "
         "path; generated sequences of 5-30 read-style calls (17 kinds, generated arguments, generators consumed or abandoned, calls that raise) are "
-        "traced with sqlite3 set_trace_callback: only SELECT/PRAGMA/EXPLAIN may be issued, no transaction may stay open, and the reopened file's "
+        "traced with sqlite3 set_trace_callback (optionally after a half-failed write on the same handle): only SELECT/PRAGMA/EXPLAIN may be issued, no transaction may stay open, and the reopened file's "
         "snapshot and bytes must be unchanged.",
         "Statement classification by first keyword; reference bytes taken after one open/close cycle.",
         "DESIGN.md section 4 C19",
@@ -37,7 +37,7 @@ CHECKS = {
     "C18": (
         "Hypothesis-generated reference FASTA + features, and transcript structures; arithmetic / slice / own reverse-complement / BED12 field oracles",
         "len(), sequence() (path or pyfaidx object, use_strand on/off, IUPAC codes in both cases, features spanning FASTA line breaks) are compared with a "
-        "slice of the generated reference and an own complement table; bed12() (id or Feature, block/thick/thin choices, name field, colour, both "
+        "slice of the generated reference (the same FASTA path is rewritten case after case) and an own complement table; bed12() (id or Feature, block/thick/thin choices, name field, colour, both "
         "always_return_list settings) with fields computed from the generated exons/CDS/UTRs, ValueError exactly when the blocks do not span, and "
         "convert.to_bed12 on the shared fields.",
         "Features inside the reference; non-overlapping blocks; thick fields only when thick/thin features exist.",
@@ -48,7 +48,7 @@ CHECKS = {
         "Five relations over arbitrary-Unicode mappings: values set as scalars/lists/tuples through Feature[...], .attributes[...] or update() are stored "
         "as sequences; toggling always_return_list changes only the view of single-item lists, never stored data, printing or parsing; JSON text and a "
         "database round trip are the identity incl. key order; merge_attributes equals the per-key sorted duplicate-free (numerically ordered) union "
-        "for dicts and Attributes under both switch settings without touching its arguments; ==, != and hash agree with printed-line equality.",
+        "for dicts and Attributes under both switch settings without touching its arguments; ==, != and hash agree with printed-line equality, also for features edited after they were hashed; decoding the same JSON text twice gives independent objects.",
         "always_return_list restored per case; numeric order only when all values are finite floats.",
         "DESIGN.md section 4 C17",
     ),
@@ -58,7 +58,7 @@ CHECKS = {
         "a greedy reference that has its own implementation of each shipped criterion, and (default criteria) with an independent sweep of maximal "
         "overlapping-or-adjacent runs; outputs must partition the input objects, span min..max of their children, carry fresh ids, leave inputs and "
         "database untouched, and re-merging the same objects (same or other criteria, or the outputs) must agree again. merge_all and children_bp "
-        "are compared on generated databases.",
+        "are compared on generated databases (incl. empty featuretypes_groups and a later merge() on the same handle).",
         "Criteria reflexive; exhaustive only for the stated scope.",
         "DESIGN.md section 4 C16",
     ),
@@ -67,7 +67,7 @@ CHECKS = {
         "interfeatures() must yield exactly the reference sequence of gaps (seqid, start, end, featuretype, strand, attribute map incl. numeric "
         "sort, '-'-joined IDs and update_attributes) for lists with gaps, adjacency, overlap, nesting and seqid changes, leaving inputs and "
         "database unchanged; create_introns / create_splice_sites must equal, as multisets, the gaps between each transcript's start-ordered "
-        "exons and their two-base sites labelled by side and strand.",
+        "exons and their two-base sites labelled by side and strand, also on a second call after an exon was deleted through the same handle.",
         "Reference loop ref_inter() in gfv/props/c15.py; generated exons of a transcript have distinct starts.",
         "DESIGN.md section 4 C15, Appendix A.4",
     ),
@@ -76,7 +76,7 @@ CHECKS = {
         "3-30 features with mixed-case/non-ASCII/numeric-looking text columns, '.' coordinates and ties are queried ~25 times each through "
         "all_features/features_of_type with featuretype (str/list/tuple), strand, every order_by column incl. 'length' and 'file_order' (string and "
         "tuple forms) and reverse; results must be a permutation of the brute-force answer and monotone under NULL < int < UTF-8 bytes; counts and "
-        "distinct featuretypes/seqids must equal a full scan.",
+        "distinct featuretypes/seqids must equal a full scan, on :memory: and file databases, and again after delete() and update() through the same handle.",
         "SQLite BINARY collation model sk() in gfv/props/c11.py; ties unordered; reverse only for one column.",
         "DESIGN.md section 4 C11",
     ),
@@ -84,7 +84,7 @@ CHECKS = {
         "Hypothesis-generated feature sets with bin-boundary-biased coordinates; brute-force filter oracle over region()/limit= query forms",
         "Databases of 3-25 features placed at +-2 of 2^17*8^k bin edges and of 2^29 are queried 12-20 times each through region() (tuple, string, "
         "Feature, keyword, seqid-less, one-sided forms; strand, featuretype, completely_within) and through limit= of all_features, "
-        "features_of_type, children and parents; every answer must equal the brute-force filter of the generated list (one-sided: boundary features either way).",
+        "features_of_type, children and parents; every answer must equal the brute-force filter of the generated list (one-sided: boundary features either way). Each query is followed by its twin with completely_within toggled, a generated shift may be applied by a transform at import, and the whole list is asked again after update() added features (some beyond the old extent) through the same handle.",
         "Integer coordinates with 1 <= start <= end; brute-force predicates in gfv/props/c06.py.",
         "DESIGN.md section 4 C06",
     ),
@@ -101,7 +101,7 @@ CHECKS = {
         "Hypothesis-generated Parent DAGs rendered as permuted GFF3 files; reference-graph oracle over every (feature, level, featuretype, order_by) query",
         "DAGs up to 12 features and depth 4 with multi-parent, shared and dangling Parent values and exotic ids are written in a generated line order; "
         "children()/parents() of every stored feature at level None/1/2/3 with featuretype and order_by variants must equal the reference graph's "
-        "sets exactly (no repeats, never the feature itself), dangling parents raise FeatureNotFoundError, iter_by_parent_childs agrees.",
+        "sets exactly (no repeats, never the feature itself), dangling parents raise FeatureNotFoundError, iter_by_parent_childs agrees; in a share of cases the tail of the file arrives later through update().",
         "Reference graph in gfv/props/c02.py reference(); ids unique.",
         "DESIGN.md section 4 C02",
     ),
@@ -109,7 +109,7 @@ CHECKS = {
         "Hypothesis-generated gene/transcript/exon structures rendered as shuffled GTF files; extents and hierarchy from a reference computation",
         "Derived transcript/gene features must exist exactly for ids owning an exon (unless disabled or explicitly present), span min start..max end of "
         "the exons on their seqid/strand, and children/parents at levels 1 and 2 must equal the id-carrying lines; explicit gene/transcript lines stay "
-        "single and are never their own relative; all four disable_infer_* combinations and custom keys/subfeature.",
+        "single and are never their own relative; all four disable_infer_* combinations and custom keys/subfeature; in a share of cases the last gene arrives through update() with the same flags.",
         "Every line carries gene and transcript keys; one seqid/strand per gene; children(gene, 2) may include stored transcripts.",
         "DESIGN.md section 4 C03",
     ),
@@ -117,31 +117,31 @@ CHECKS = {
         "Hypothesis-generated records x id_spec forms against a reference implementation of the documented id rules",
         "Stored ids must equal ref_ids() (database-ids.rst) in input order for 16 id_spec forms incl. lists, dicts, ':field:' and callables, be unique, "
         "db[id]/db[feature] must return exactly the stored line, generated absent keys (prefixes, case variants, SQL wildcards, padded) must raise "
-        "FeatureNotFoundError carrying the key, and a multi-valued selected id attribute must make create_db raise ValueError.",
+        "FeatureNotFoundError carrying the key, and a multi-valued selected id attribute must make create_db raise ValueError; in a share of cases the tail arrives through one or two update() calls on the same handle (numbering continues, look-ups follow, also under 'replace').",
         "Reference ref_ids()/resolve_unique() in gfv/props/c04.py; explicit ids avoid the generated-name shapes.",
         "DESIGN.md section 4 C04",
     ),
     "C13": (
         "Hypothesis differential testing across the seven input forms + call-counting transforms + Counter oracle for inspect()",
-        "The same generated annotation is supplied as path, gzip path, string, list of Features, one-shot generator, DataIterator and FeatureDB for "
+        "The same generated annotation is supplied as path, gzip path, string, list of Features, one-shot generator, list iterator, map object, custom __next__ iterator, DataIterator and FeatureDB for "
         "every checklines in 0..n+2; iteration sequences and database snapshots must be equal (and equal to the text model for the path form); a "
         "counting transform must be called exactly n times and exactly the rows for which it returned a false value are missing; inspect() must "
-        "equal Counters over the first `limit` features.",
+        "equal Counters over the first `limit` features and leave the rest of a one-shot source untouched; transforms that return a modified copy must be honoured.",
         "Every generated line exhibits its dialect (otherwise the forms legitimately differ); GTF compared with inference disabled.",
         "DESIGN.md section 4 C13",
     ),
     "C01": (
         "Hypothesis-generated annotation files rendered from an independent text model; round-trip / inverse oracle + reopen + re-import metamorphic relation",
-        "Files of 1-12 lines in every grammar dialect are rendered from structured records; after create_db the rows must equal the records "
+        "Files of 1-12 lines in every grammar dialect (four attribute styles: key=value, key \"value\", key value, key=\"value\") are rendered from structured records; after create_db the rows must equal the records "
         "(columns, extras always; ordered attributes and byte-identical printing whenever the dialect-observation model says the inspected "
-        "window recovers the dialect), also after close/reopen and after re-importing the printed lines. Sampling: thousands of files per run.",
+        "window recovers the dialect), also after close/reopen, after re-importing the printed lines, when the iteration is interleaved with other queries, and when the same objects are printed twice. Sampling: thousands of files per run.",
         "Text model/renderer and the dialect-observation model (gfv/textmodel.py) are trusted; domain restrictions of DESIGN section 3.",
         "DESIGN.md section 4 C01, Appendix A.2",
     ),
     "C07": (
         "Hypothesis-generated single lines from the text model; inverse oracle (parse == record, print == line) + metamorphic tab/space relation",
         "Every combination of style, separator, trailing semicolon, repeated/comma lists, flags, escapes, extras and '.' coordinates is drawn; "
-        "feature_from_line must give the record back and print the identical bytes; a space-rendered nine-column line must parse equal under strict=False.",
+        "feature_from_line must give the record back and print the identical bytes - also on a second print after hashing, with the parsed values untouched; a space-rendered nine-column line must parse equal under strict=False; an atheris campaign applies the same oracle to byte-decoded records.",
         "Renderer (gfv/textmodel.py) trusted; value-domain restrictions of DESIGN section 3.",
         "DESIGN.md section 4 C07",
     ),
@@ -149,7 +149,7 @@ CHECKS = {
         "Hypothesis round trip under supplied dialects + exhaustive enumeration of short attribute strings (totality) + random strings",
         "Mappings over arbitrary Unicode incl. tab/newline/%/;/=/&/,/controls are printed and re-parsed under every gff3-style dialect dictionary "
         "(and GTF-style ones over their escape-free value domain); every string up to length 5 (quick) / 7 (thorough) over the structural alphabet "
-        "is parsed under the inferred and five supplied dialects and must yield str -> [str] without raising.",
+        "is parsed under the inferred and five supplied dialects and must yield str -> [str] without raising (plus atheris campaigns from an empty and a harvested corpus); a parsed feature whose value list is edited in place after printing must print and re-parse as it is now.",
         "Exhaustive only up to the stated length over 8 symbols; sampling beyond.",
         "DESIGN.md section 4 C08",
     ),
@@ -157,7 +157,7 @@ CHECKS = {
         "Hypothesis-generated consistent files, two-valued mixtures and supplied dialects against a reference vote model",
         "Consistent files must report exactly their dialect (all entries, first-seen key order) through DataIterator, create_db, a reopened "
         "FeatureDB and helpers.infer_dialect, and route to the GFF3 or GTF importer; mixtures must resolve to the attribute-count-weighted "
-        "majority with ties to the first seen; a supplied dialect is reported verbatim and drives parsing.",
+        "majority with ties to the first seen; a supplied dialect is reported verbatim and drives parsing; force_gff=True and a later update() with differently written text leave the reported dialect alone.",
         "Vote model (gfv/textmodel.py vote/observe) trusted; mixtures whose winner differs between windows of checklines and checklines+1 lines are not asserted.",
         "DESIGN.md section 4 C09, Appendix A.2",
     ),
@@ -165,7 +165,7 @@ CHECKS = {
         "Hypothesis-generated interleavings of directive/comment/blank/feature/FASTA lines against a line-by-line reference reading",
         "Documents with directives below and above the inspection window, look-alike lines and FASTA tails are imported from a path and from a "
         "string, with inferred and supplied dialect; DataIterator.directives, db.directives and the reopened database must list exactly the "
-        "'##' lines before the FASTA marker, in order, and exactly the feature lines before it must be stored.",
+        "'##' lines before the FASTA marker, in order, and exactly the feature lines before it must be stored - still so after a later update() and reopen.",
         "Reference reading in gfv/props/c14.py expected(); blank means empty line.",
         "DESIGN.md section 4 C14",
     ),
